@@ -106,6 +106,42 @@ func verifHarness_C16_resource() {
 	})
 	verifAssert(nRoutes == nExpected && total >= nExpected, "the router holds exactly one route per implemented action")
 
+	// the same controller registered once more on the same router under another base path: its
+	// whole table exists there too (the names go to the latest registration; the earlier routes stay)
+	{
+		k2 := verifCatch(func() { r.Resource("/second/", ctl) })
+		verifAssert(k2 == "", "the same controller can be registered under a second base path")
+		res2 := "/second/" + verifLower3(subset, uses)
+		okSecond, okFirst := true, true
+		for i, a := range verifRESTTable {
+			if subset>>i&1 == 0 {
+				continue
+			}
+			concrete := func(base string) string {
+				out := base
+				for j := 0; j < len(a.suffix); j++ {
+					if a.suffix[j] == '{' {
+						out += "7"
+						for j < len(a.suffix) && a.suffix[j] != '}' {
+							j++
+						}
+						continue
+					}
+					out += string(a.suffix[j])
+				}
+				return out
+			}
+			for _, m := range a.methods {
+				rt2, _, _ := r.QuickMatch(m, concrete(res2))
+				okSecond = verifAnd(okSecond, rt2 != nil && rt2.Path() == res2+a.suffix)
+				rt1, _, _ := r.QuickMatch(m, concrete(res))
+				okFirst = verifAnd(okFirst, rt1 != nil && rt1.Path() == res+a.suffix)
+			}
+		}
+		verifAssert(okSecond, "every implemented action is reachable under the second base path")
+		verifAssert(okFirst, "and still under the first")
+	}
+
 	// a second registration of the same controller (its Uses() table is shared) is as complete as the first
 	if uses {
 		nUses := len(verifC16Uses)
